@@ -436,6 +436,10 @@ def run(ctx, lean_ok):
                 ys[3 + j] = y[0, 3 + j] * r.uniform(0.01, 1.)       # keep a positive component most of the time
             if not soluble:
                 continue                                             # an inert mass never overshoots (no dissolution)
+            # keep the particle temperature of the row: the heat content follows the changed masses
+            msum = float(y[i, 3:-1].sum())
+            Ti = float(y[i, -1]) / (msum * cp) if msum > 0 else float(prf.get_values(float(y[i, 2]), ['temperature'])[0])
+            ys[-1] = Ti * float(np.where(ys[3:-1] < 0, 0., ys[3:-1]).sum()) * cp
             states.append((float(t[i]), ys, 'synthetic-negative'))
         for (ti, ystate, origin) in states:
             KT_in = r.choice([float(c['K_T']), 0.])
